@@ -139,7 +139,13 @@ func showall(w io.Writer, e *yang.Entry) {
 		fmt.Fprintf(w, "\n%s\n  ", e.Node.Statement().Location())
 		printType(w, e.Type.Root, false)
 	}
-	for _, d := range e.Dir {
-		showall(w, d)
+	// Children in name order, so that the listing is reproducible.
+	names := make([]string, 0, len(e.Dir))
+	for n := range e.Dir {
+		names = append(names, n)
+	}
+	sort.Strings(names)
+	for _, n := range names {
+		showall(w, e.Dir[n])
 	}
 }
